@@ -159,7 +159,13 @@ class Main(Suite):
         return fails
 
     def extra(self, ctx, cases, impl, model):
-        return dict(self.stats)
+        # outside the lexical theorem: a symlinked directory below refs/ and logs/refs/, on a real directory
+        # through go-git's BoundOS filesystem (os.Root).  Recorded, not judged: the OS resolver is not modelled.
+        from vf.core import run_impl
+        r = run_impl(self.go_cmd, [{"id": "symlink", "symlink": True}]).get("symlink") or {}
+        ctx.notes.append("symlinked refs/heads/evil -> outside (sentinel intact, sentinel value leaked through Ref, entries outside): %s; per call: %s"
+                         % (r.get("out"), r.get("extra")))
+        return dict(self.stats, symlink_probe=r.get("out"))
 
 
 SUITES = [Main()]
